@@ -218,9 +218,109 @@ Section Collapse.
   Proof.
     destruct c as [n cm sl]. simpl. intros _ _ _ H. rewrite !leaves_unfold.
     destruct (kids_of sl) as [|p r] eqn:E.
-    - simpl in H. symmetry in H. apply Permutation_nil in H. apply kleaves_nil_iff in H. now rewrite H.
+    - change (kleaves []) with (@nil string) in H. symmetry in H. apply Permutation_nil in H. apply kleaves_nil_iff in H. now rewrite H.
     - destruct (kids_of (b1 ++ a1)) eqn:E2; [|exact H].
-      simpl in H. apply Permutation_nil in H. apply kleaves_nil_iff in H. discriminate.
+      change (kleaves []) with (@nil string) in H. apply Permutation_nil in H. apply kleaves_nil_iff in H. discriminate.
   Qed.
 
+  Lemma wf_sub_kids c : wf_sub c = true -> forallb (fun p => wf_sub (snd p)) (kids_of (uslots c)) = true.
+  Proof. destruct c as [n1 c1 sl1]. rewrite wf_sub_unfold. simpl. intros H. apply andb_true_iff in H. tauto. Qed.
+  Lemma wf_sub_up c : wf_sub c = true -> n_up (uslots c) = 1.
+  Proof. destruct c as [n1 c1 sl1]. rewrite wf_sub_unfold. simpl. intros H. apply andb_true_iff in H. destruct H as [H _]. now apply Nat.eqb_eq. Qed.
+
+  Lemma nontip_leaves c :
+    wf_sub c = true -> is_tip c = false -> kids_of (uslots c) <> [] /\ leaves c = kleaves (kids_of (uslots c)).
+  Proof.
+    intros Hw Ht. generalize (wf_sub_up c Hw). destruct c as [n1 c1 sl1]. simpl. intros Hu.
+    unfold is_tip, degree in Ht. simpl in Ht. apply Nat.eqb_neq in Ht.
+    generalize (length_slots sl1). rewrite Hu. intros El. rewrite leaves_unfold.
+    destruct (kids_of sl1); [simpl in El; lia|]. split; [discriminate|reflexivity].
+  Qed.
+
+  Lemma decide_nontip k e c n : decide k e c n = true -> is_tip c = false.
+  Proof. unfold decide. intros H. apply andb_true_iff in H. destruct H as [H _]. apply andb_true_iff in H. destruct H as [_ H]. now apply negb_true_iff. Qed.
+  Lemma decide_sel k e c n : decide k e c n = true -> sel k e c = true.
+  Proof. unfold decide. intros H. apply andb_true_iff in H. destruct H as [H _]. apply andb_true_iff in H. tauto. Qed.
+
+  Lemma proc_go_basic top sl :
+    Forall (fun s : slot => match s with
+                            | Some (_, c) => forall top k m b a, wf_sub c = true -> proc c top k m = (b, a) -> basic_inv top (uslots c) b a
+                            | None => True end) sl ->
+    forallb (fun p => wf_sub (snd p)) (kids_of sl) = true ->
+    forall k m b a, proc_go top sl k m = (b, a) -> basic_inv top sl b a.
+  Proof.
+    induction sl as [|[[e c]|] r IHr]; intros IH Hw k m b a Hp.
+    - simpl in Hp. injection Hp as Hb Ha. subst. unfold basic_inv. simpl. destruct top; repeat split; auto.
+    - inversion IH as [|? ? Hc Hr]; subst. kidsplit. destruct Hw as [Hwc Hwr]. specialize (IHr Hr Hwr).
+      rewrite proc_go_some in Hp. cbv zeta in Hp.
+      destruct (decide k e c (m + 1 + (if top then length r else length (kids_of r)))) eqn:Ed.
+      + destruct (proc c false (S k) (m + (if top then length r else length (kids_of r)))) as [bc ac] eqn:Ec.
+        destruct (proc_go top r (k + 1 + span c) (m + length bc + length ac)) as [b' a'] eqn:Er.
+        injection Hp as Hb Ha. subst b a.
+        destruct (Hc false _ _ _ _ Hwc Ec) as [H1 [H2 [H3 H4]]].
+        destruct (IHr _ _ _ _ Er) as [G1 [G2 [G3 G4]]].
+        destruct (nontip_leaves c Hwc (decide_nontip _ _ _ _ Ed)) as [_ Hlc].
+        unfold basic_inv. kidsplit. repeat split; try tauto; try lia.
+        * rewrite G1. destruct top; reflexivity.
+        * rewrite Hlc, <- H4, <- G4. kidsplit. perm.
+      + destruct (proc c true (S k) 0) as [b1 a1] eqn:Ec.
+        destruct (proc_go top r (k + 1 + span c) (S m)) as [b' a'] eqn:Er.
+        injection Hp as Hb Ha. subst b a.
+        destruct (Hc true _ _ _ _ Hwc Ec) as [H1 [H2 [H3 H4]]].
+        destruct (IHr _ _ _ _ Er) as [G1 [G2 [G3 G4]]].
+        unfold basic_inv. simpl app. kidsplit. repeat split; try tauto; try lia.
+        * rewrite G1. destruct top; reflexivity.
+        * rewrite wf_sub_unfold. kidsplit. apply andb_true_iff. split.
+          -- apply Nat.eqb_eq. rewrite H1, H2, (wf_sub_up c Hwc). reflexivity.
+          -- kidsplit. tauto.
+        * rewrite (rebuilt_leaves c b1 a1 Hwc H1 H2 H4), <- G4. kidsplit. reflexivity.
+    - inversion IH as [|? ? _ Hr]; subst. kidsplit. specialize (IHr Hr Hw).
+      rewrite proc_go_none in Hp. destruct top.
+      + destruct (proc_go true r k (S m)) as [b' a'] eqn:Er. injection Hp as Hb Ha. subst b a.
+        destruct (IHr _ _ _ _ Er) as [G1 [G2 [G3 G4]]].
+        unfold basic_inv. simpl app. kidsplit. repeat split; auto. lia.
+      + destruct (IHr _ _ _ _ Hp) as [G1 [G2 [G3 G4]]].
+        unfold basic_inv. kidsplit. repeat split; auto.
+  Qed.
+
+  Lemma proc_basic : forall t top k m b a,
+      wf_sub t = true -> proc t top k m = (b, a) -> basic_inv top (uslots t) b a.
+  Proof.
+    induction t as [n cm sl IH] using utree_ind'. intros top k m b a Hw Hp.
+    rewrite proc_eq in Hp. simpl uslots. eapply proc_go_basic; eauto.
+    - eapply Forall_impl; [|exact IH]. intros [[e c]|]; auto.
+    - now apply (wf_sub_kids (UNode n cm sl)).
+  Qed.
+
+  (** the root: no parent slot *)
+  Lemma proc_basic_root n cm sl k m b a :
+    wf (UNode n cm sl) = true -> proc (UNode n cm sl) true k m = (b, a) -> basic_inv true sl b a.
+  Proof.
+    intros Hw Hp. rewrite proc_eq in Hp. rewrite wf_unfold in Hw. apply andb_true_iff in Hw.
+    eapply proc_go_basic; eauto; [|tauto].
+    apply Forall_forall. intros [[e c]|] _; auto. intros. eapply proc_basic; eauto.
+  Qed.
+
+  Theorem remove_edges_wf t : wf t = true -> wf (remove_edges rr rt sel t) = true.
+  Proof.
+    destruct t as [n cm sl]. intros Hw. unfold remove_edges.
+    destruct (proc (UNode n cm sl) true 0 0) as [b a] eqn:Ep.
+    destruct (proc_basic_root _ _ _ _ _ _ _ Hw Ep) as [H1 [H2 [H3 H4]]].
+    rewrite wf_unfold in Hw. apply andb_true_iff in Hw. destruct Hw as [Hu _]. apply Nat.eqb_eq in Hu.
+    simpl uname. simpl ucom. rewrite wf_unfold, H3, n_up_app, H1, H2, Hu. reflexivity.
+  Qed.
+
+  Theorem remove_edges_leaves t :
+    wf t = true -> Permutation (leaves (remove_edges rr rt sel t)) (leaves t).
+  Proof.
+    destruct t as [n cm sl]. intros Hw. unfold remove_edges.
+    destruct (proc (UNode n cm sl) true 0 0) as [b a] eqn:Ep.
+    destruct (proc_basic_root _ _ _ _ _ _ _ Hw Ep) as [H1 [H2 [H3 H4]]].
+    simpl uname. simpl ucom. rewrite !leaves_unfold.
+    destruct (kids_of sl) as [|p r] eqn:E.
+    - change (kleaves []) with (@nil string) in H4. symmetry in H4. apply Permutation_nil in H4.
+      apply kleaves_nil_iff in H4. now rewrite H4.
+    - destruct (kids_of (b ++ a)) eqn:E2; [|exact H4].
+      change (kleaves []) with (@nil string) in H4. apply Permutation_nil in H4. apply kleaves_nil_iff in H4. discriminate.
+  Qed.
 End Collapse.
